@@ -24,4 +24,5 @@ var All = map[string]func(tier string) int{
 	"C19":     C19,
 	"C20":     C20,
 	"C20RACE": C20RaceMain,
+	"CB":      CBAll,
 }
